@@ -21,6 +21,7 @@ type compiler struct {
 	builtinScope  *scopeinfo
 	scopes        []*scopeinfo
 	scopecnt      int
+	moduleDepth   int
 	regexpCache   sync.Map
 }
 
@@ -189,6 +190,11 @@ func (c *compiler) compileImport(i *Import) error {
 }
 
 func (c *compiler) compileModule(q *Query, alias string) error {
+	// modules importing each other would recurse until the stack overflows
+	if c.moduleDepth++; c.moduleDepth > 100 {
+		return errors.New("module imports are nested too deeply (circular import?)")
+	}
+	defer func() { c.moduleDepth-- }()
 	scope := c.scopes[len(c.scopes)-1]
 	scope.depth++
 	defer func(l int) {
